@@ -188,6 +188,10 @@ def oracle_C10(meta, kw, res):
         return out
     d = direction(kw)
     t = res.get("t", [])
+    # a terminal event that reached its occurrence count stops the run: the status says so, in whichever step it happened
+    # (seeded change C10-b: RK23 reported Success when the event fell into the step that lands on xend)
+    if st != "UserInterrupt":
+        out.append(("terminal-status", "a terminal event reached its occurrence count but the status is %s, not UserInterrupt" % st))
     # the terminal event point is the last sample
     cfgs = terminal_configs(kw)
     taus = []
